@@ -45,6 +45,10 @@ func newPMFromFile(options plugintypes.OperatorOptions) (plugintypes.Operator, e
 
 	var lines []string
 	sc := bufio.NewScanner(bytes.NewReader(data))
+	// The whole file is in memory already: accept lines of any length. With the default
+	// 64 KiB token limit the scanner stops at the first longer line (a comment is enough)
+	// and every later entry was dropped without an error.
+	sc.Buffer(nil, len(data)+1)
 	for sc.Scan() {
 		l := sc.Text()
 		l = strings.TrimSpace(l)
